@@ -722,6 +722,10 @@ impl Shape {
                         ),
                     );
                 }
+                // The arguments of the two functions are their own: narrowing
+                // them must not reach a binding of the caller that happens to
+                // carry an argument's name.
+                let symbol_table = &mut symbol_table.clone();
                 // Use arg_order for both sides to compare in declaration order.
                 for (left_name, right_name) in left_opshape
                     .arg_order
